@@ -50,7 +50,7 @@ def _entry_arms(lib):
     cap, st, src_enum = _capture_fn(lib)
     entry = None
     for b in lib.bodies:
-        if b.raw["def_kind"] == "Fn" and b.nargs == 2 and any((fn_of(t) or {}).get("name") == "deserialize_any" for _, t in b.calls()):
+        if b.raw["def_kind"] == "Fn" and b.nargs >= 2 and any((fn_of(t) or {}).get("name") == "deserialize_any" for _, t in b.calls()):
             entry = b
     if entry is None:
         raise AnchorLost("transcoder entry (fn(ser, de) calling deserialize_any) not found")
@@ -514,3 +514,42 @@ def r11_5(ctx):
                    "after this accessor fails, control only merges the element's state and returns" if ok else
                    (f"after this accessor fails, `{bad[0][1]}` can still run: a later failure would overwrite the recorded cause of the translation error" if bad else "the failure edge of this accessor was not found"))
     ctx.ob("accessor-calls", n >= 3, "lib", f"{n} next_*_seed call(s)")
+
+
+@rule("R11.6", 1, "a recorded error source that is not a constant is taken over from another state (the visitor that has just run, the child being merged), never read back from the very state it is written to: re-recording one's own source keeps the default 'deserializer' and drops the serializer's cause", ["C11"])
+def r11_6(ctx):
+    lib = ctx.lib
+    capf, st, src_enum = _capture_fn(lib)
+    n = 0
+    seen = {}
+    for b in lib.bodies:
+        for bb, t in b.calls():
+            f = fn_of(t) or {}
+            if (f.get("resolved") or f.get("def")) != capf.id or len(t["args"]) < 3:
+                continue
+            tr = trace(b, t["args"][1])
+            if not (tr.origin and tr.origin[0] == "call"):
+                continue  # a constant source (R11.1 / R11.2), or a parameter handed on
+            g = fn_of(tr.origin[2]) or {}
+            gb = lib.by_id.get(g.get("resolved") or g.get("def"))
+            if gb is None or gb.raw.get("impl_self_adt") != st or not tr.origin[2]["args"]:
+                continue
+            n += 1
+
+            def state_of(op):
+                t_ = trace(b, op)
+                o = t_.origin
+                root = (o[0], o[1]) if o and o[0] == "arg" else (o[0], o[1], id(o[2])) if o and o[0] == "call" else (o[0], id(o[1])) if o and len(o) > 1 else None
+                if o and o[0] in ("partial", "multi"):
+                    root = (o[0], o[1])
+                return root, tuple(x[1] for x in t_.steps if x[0] == "field")
+
+            src_state = state_of(tr.origin[2]["args"][0])
+            dst_state = state_of(t["args"][0])
+            k = seen.get(b.id, 0)
+            seen[b.id] = k + 1
+            ok = src_state != dst_state
+            ctx.ob(f"source-from-another-state:{b.name}:{k}", ok, site(b, bb),
+                   "the source is read from a different state than the one that records it" if ok else
+                   "the source handed to the capture is read from the capturing state itself: a no-op that leaves the default source in place, so a failure of the serializer further down is reported as the input parser's")
+    ctx.ob("non-constant-captures", n >= 1, site(capf), f"{n} capture(s) with a source read from a state")
